@@ -15,7 +15,7 @@ OVERLAY = {
 }
 DELAYS = [0, 0, 1500, 4000]          # microseconds added to every StoreLogs of the raft log store after a (re)start
 FAULTS = ["kill", "kill-after-ack", "kill-during-post", "lost-answer", "snapshot", "pause",
-          "round-kill", "round-pause", "round-snapshot"]
+          "round-kill", "round-pause", "round-snapshot", "restart-immediate-retry"]
 
 
 def gen_scenario(rng, ident):
@@ -46,6 +46,7 @@ def gen_scenario(rng, ident):
         elif kind == "lost-answer": tok = "LA:%d" % k
         elif kind == "snapshot": tok = "S"
         elif kind == "pause": tok = "Z:%d" % rng.randint(20, 300)
+        elif kind == "restart-immediate-retry": tok = "RI:%d:%d:0" % (k, rng.choice([1, 2]))
         elif kind == "round-kill": tok = "R:%d:kill:%d:%d" % (rng.randint(2, 5), rng.randint(0, 6000), d)
         elif kind == "round-pause": tok = "R:%d:pause:%d:%d" % (rng.randint(2, 5), rng.randint(0, 3000), rng.randint(20, 300))
         else: tok = "R:%d:snap:%d:0" % (rng.randint(2, 5), rng.randint(0, 3000))
@@ -135,6 +136,10 @@ def monitor(r):
             sent[(c["nick"], p["text"])] = p["acked"]
         if c.get("dead"):
             d = c["dead"]
+            if c.get("refused_while_replaying"):
+                # the answer to the first copy was dropped, the retry was answered 4xx by a node still replaying its log: the client
+                # never saw an acknowledgement, the property does not speak (counted in the evidence)
+                continue
             if "status-404" in d and c["created"]:
                 bad.append(("acked-session-lost", "session of client %d was created with HTTP 200 and later refused: %s" % (c["k"], d[:300])))
             else:
@@ -188,9 +193,34 @@ def monitor(r):
                 bad.append(("receivers-disagree-on-order", "clients %d and %d received the messages of the other clients in different orders / multiplicities" % (a["k"], b["k"])))
             # each one's view of the other's messages interleaved with third parties must embed into one order:
             # a sees b's messages, b sees a's; merged with the common part both must be consistent with the sender orders (checked above)
-    if not harness and not bad and len(readers) != len([c for c in cl if c["joined"]]):
+    if not harness and not bad and len(readers) != len([c for c in cl if c["joined"] and not c.get("refused_while_replaying")]):
         harness.append("not every joined client fetched its stream")
     return bad, harness, checks
+
+
+def ri_grid(reps, quick):
+    """D14 shapes (restart WITHOUT the Barrier + immediate retries of a post whose answer was dropped): sessions inside /
+    outside a snapshot, 0..~900 entries behind the snapshot, announced at leadership (mode 1) or as soon as the listener is
+    up (mode 2, what main() does), optionally with a delay in front of every FSM.Apply"""
+    lines = []
+    for rep in range(reps):
+        for snap in (True, False):
+            for fill in (0, 10, 50, 150, 300):
+                for mode in (1, 2):
+                    for apply_delay in (0, 200):
+                        if apply_delay and (fill not in (0, 10) or not snap):
+                            continue
+                        if quick and not ((snap and fill in (50, 150, 300) and not apply_delay) or (not snap and fill == 50)
+                                          or (snap and fill == 10 and apply_delay and mode == 1)):
+                            continue
+                        ident = "d14-%s-f%d-m%d-a%d-r%d" % ("snap" if snap else "nosnap", fill, mode, apply_delay, rep)
+                        steps = ["N:0", "F", "C:0", "C:1", "C:2", "M:0:2", "M:1:2"] + (["S"] if snap else [])
+                        if fill:
+                            steps.append("R:%d:none:0:0" % fill)
+                        steps += ["RI:%d:%d:%d" % (rep % 3, mode, apply_delay), "M:%d:2" % ((rep + 1) % 3)]
+                        lines.append("sys %s " % ident + " ".join(steps))
+    lines.sort(key=lambda l: "-a0-" not in l)     # shapes without an injected FSM delay first (they are reported first)
+    return lines
 
 
 def run(ck, replay):
@@ -201,7 +231,8 @@ def run(ck, replay):
     ck.cov["trusted_base"] += [
         "sysdrv harness/go/main/zz_verif_sys_test.go: the child re-enacts main()'s start-up (same calls, same order; bootstrapping only on the first start; irclog wiped "
         "when not bootstrapping; GetConfiguration before NewRaft) but is not main(): in-memory raft transport, plain HTTP on a loopback port, 50 ms raft timeouts, no "
-        "session-expiry loop, no time safeguard, no 'only known peer is myself' exit, optional delay in front of the raft log store's StoreLogs (slow disk)",
+        "session-expiry loop, no time safeguard, no 'only known peer is myself' exit, optional delay in front of the raft log store's StoreLogs (slow disk) and, in a "
+        "few D14 scenarios, in front of FSM.Apply; except in the RI fault the child announces its port only after a raft Barrier",
         "the scripted clients (retry with the same ClientMessageId until HTTP 200, 4xx is final, 40 s request timeout > every scripted pause) and the end-of-stream "
         "marker (PONG to a PING the client posted last)",
         "the python monitor in props/c05.py (multiset/sequence comparisons on (sender nick, text) of PRIVMSG lines)"]
@@ -214,11 +245,14 @@ def run(ck, replay):
         "localnet of real binaries is NOT attempted offline",
         "timing of leader changes on several nodes cannot be exhibited; 'same stream on all nodes' degenerates to: the stream one node serves before a restart "
         "is a prefix of / equal to what it serves after it (resume by lastseen across restarts)",
-        "HYPOTHESIS handler_caught_up (D14): the node answering a retry has applied everything committed before the retry arrived. NOT enforced by the code "
-        "(main() serves HTTP before the log is replayed; a new leader compares ClientMessageId against a state that may lag its own log). The harness ENFORCES it: "
-        "the child announces its port only after it is leader and a raft Barrier has passed. Without it the statement is false: C05_refuted_without_caught_up",
-        "HYPOTHESIS earlier_requests_settled: a client repeats a request only after the earlier attempt is decided (client timeout 40 s > pauses <= 300 ms; a killed "
-        "process decides by dying). A retry racing its still-running first copy inside one node can be proposed twice (marker check and proposal are not atomic)",
+        "D14 (the node answering a retry lags its own log, e.g. main() serves HTTP while the log is replayed after a restart): no hypothesis any more since "
+        "/repo 92a4e2e — the second copy is skipped when the log is applied (ApplySkip in the Coq composition). EXERCISED: the RI fault restarts the node without "
+        "waiting for a raft Barrier (announced at leadership / as soon as the listener is up, which is what main() does) and repeats the unanswered post every "
+        "200 us. All other restarts still wait for the Barrier; a 4xx answer ('Session not yet seen') of a replaying node to such a retry is counted as "
+        "retry_refused_while_replaying and is not a violation (the client never saw an acknowledgement)",
+        "HYPOTHESIS earlier_messages_settled: when a client sends a request for a NEW message, what its requests for EARLIER messages proposed is committed or never "
+        "will be (client timeout 40 s > pauses <= 300 ms; a killed process decides by dying). Not enforced by the code: the apply rule compares with the LAST id only. "
+        "Retries racing their own still-running first copy need no hypothesis any more",
         "scenarios stay far inside the compaction horizon (SessionExpiration 30 min): messages older than the horizon disappear legitimately (C02/C04)",
         "client message ids are non-zero and increase per session; every client joined the channel before the first numbered message was posted",
         "NodeStateIsReplay is C02_state/C02_output/C02_exact (open findings of C02/C04/C08 are inherited); the marker rule is C10_marker/C10_marker_inv; determinism is C01"]
@@ -234,6 +268,7 @@ def run(ck, replay):
             for fn in sorted(os.listdir(corpus)):
                 if fn.endswith(".case"):
                     lines += [l.strip() for l in open(os.path.join(corpus, fn)).read().split("\n") if l.strip() and not l.startswith("#")]
+        lines += ri_grid(1 if quick else 5, quick)
         n = 160 if quick else 2400
         for i in range(n):
             line, kinds = gen_scenario(ck.rng, "g%d" % i)
@@ -253,7 +288,7 @@ def run(ck, replay):
         return
 
     dist = {"scenarios": len(lines), "clients": 0, "posts": 0, "acked_posts": 0, "retried_posts": 0, "answers_dropped": 0, "node_starts": 0,
-            "snapshots_on_disk": 0, "incremental_fetches": 0, "faults_generated": kinds_gen, "steps_executed": {}, "failed_attempts": {}}
+            "snapshots_on_disk": 0, "incremental_fetches": 0, "retry_refused_while_replaying": 0, "faults_generated": kinds_gen, "steps_executed": {}, "failed_attempts": {}}
     nontriv, checks_total, seen_sig, harness_all = set(), 0, set(), []
     samples = []
     for line, r in zip(lines, res):
@@ -276,7 +311,10 @@ def run(ck, replay):
         dist["node_starts"] += r["starts"]
         dist["snapshots_on_disk"] += r["snapshots_on_disk"]
         for e in r["events"]:
+            if e.startswith("RI:"):
+                e = ":".join(e.split(":")[:3])       # RI:mode=<m>:<acked|refused|failed>
             dist["steps_executed"][e] = dist["steps_executed"].get(e, 0) + 1
+        dist["retry_refused_while_replaying"] += sum(1 for c in r["clients"] if c.get("refused_while_replaying"))
         if retried and r["starts"] > 1 and not harness:
             nontriv.add(line.split(" ", 2)[2])
         if len(samples) < 3:
@@ -303,7 +341,9 @@ def run(ck, replay):
                       "handlers): create session, NICK/USER/JOIN, 5-30 numbered PRIVMSGs each with increasing client message ids, every POST repeated with the same id until "
                       "HTTP 200; 1-6 faults per scenario out of: SIGKILL idle / the moment an acknowledgement arrives / a scripted number of microseconds after a request was "
                       "written / during a concurrent round, answer dropped on the client side, forced /snapshot (idle or during a round), SIGSTOP-SIGCONT (idle or during a "
-                      "round); restart on the same directories with 0-4 ms delay in front of the raft log store. non-trivial = scenario (distinct by text) in which the node "
+                      "round), RI = answer dropped + SIGKILL at that moment + restart WITHOUT waiting for the raft Barrier + the same body repeated every 200 us (D14); "
+                      "restart on the same directories with 0-4 ms delay in front of the raft log store; plus a grid of D14 shapes (sessions inside/outside a snapshot, "
+                      "0-900 entries behind it, announced at leadership or when the listener is up, optional 200 us delay in front of FSM.Apply). non-trivial = scenario (distinct by text) in which the node "
                       "was restarted at least once AND at least one POST had to be repeated (measured on the run)")
     ck.cov["input_distribution"] = dist
     ck.cov["samples"] = samples
